@@ -25,6 +25,12 @@ struct Reply {
     framing: String, // cl | chunked | close
     body: Vec<u8>,
     fault: String,   // none | refused | close_before | truncated | garbage_status | location | huge_cl63 | huge_clmax | huge_cl40
+    /// circumstances that are not faults and change nothing in what the adapter must deliver
+    /// (`framing+flag+flag`): obs (header values with non-UTF-8 bytes in UNRELATED headers), reason (a
+    /// reason phrase with a colon), nested (the server's handler makes its own call through the same
+    /// adapter before it replies), put (an earlier call with a method the adapter may refuse)
+    flags: Vec<String>,
+    nested: Option<(String, u16)>,
 }
 
 #[derive(Clone, Debug, Default)]
@@ -150,7 +156,15 @@ fn write_reply(s: &mut TcpStream, r: &Reply, port: u16) {
     };
     // framing "close10": an HTTP/1.0 reply (old proxies, simple servers), body delimited by the close
     let version = if r.framing == "close10" { "HTTP/1.0" } else { "HTTP/1.1" };
-    let mut head = format!("{} {} {}\r\n", version, r.status, reason).into_bytes();
+    let has = |f: &str| r.flags.iter().any(|x| x == f);
+    let mut head = if has("reason") {
+        format!("{} {} {}: served from cache\r\n", version, r.status, reason).into_bytes()
+    } else {
+        format!("{} {} {}\r\n", version, r.status, reason).into_bytes()
+    };
+    if has("obs") {
+        head.extend_from_slice(b"Server: Caf\xe9/1.0\r\nX-Powered-By: \xa0\xff caf\xc3\xa9\r\n");
+    }
     if let Some(ct) = &r.ct {
         // line feeds separate the values of SEVERAL Content-Type headers
         for one in ct.split(|c| *c == b'\n') {
@@ -227,6 +241,18 @@ fn serve(listener: TcpListener, reply: Reply, port: u16, done: mpsc::Receiver<()
                 s.set_nonblocking(false).ok();
                 if let Some(r) = read_request(&mut s) {
                     seen.push(r);
+                    if let Some((ad, p2)) = &reply.nested {
+                        // the handler itself is a client of another server, through the same adapter
+                        let inner = http::Request::builder()
+                            .method(http::Method::POST)
+                            .uri(format!("http://127.0.0.1:{}/inner", p2))
+                            .header(http::header::ACCEPT, "application/json")
+                            .header(http::header::CONTENT_TYPE, "application/x-www-form-urlencoded")
+                            .body(b"inner=1".to_vec())
+                            .unwrap();
+                        let ad = ad.clone();
+                        let _ = with_watchdog(move || call_adapter(&ad, inner));
+                    }
                     write_reply(&mut s, &reply, port);
                 }
                 let _ = s.shutdown(std::net::Shutdown::Both);
@@ -276,7 +302,9 @@ fn with_watchdog<T: Send + 'static, F: FnOnce() -> T + Send + 'static>(f: F) -> 
         let r = catch_unwind(AssertUnwindSafe(f));
         let _ = tx.send(r);
     });
-    match rx.recv_timeout(Duration::from_secs(10)) {
+    // 10 s by default; the driver re-runs a case that did not answer in time once more, alone, with a longer limit
+    let secs = std::env::var("VERIF_NET_WATCHDOG").ok().and_then(|s| s.parse().ok()).unwrap_or(10u64);
+    match rx.recv_timeout(Duration::from_secs(secs)) {
         Ok(Ok(v)) => Ok(v),
         Ok(Err(_)) => Err("PANIC"),
         Err(_) => Err("HANG"),
@@ -306,9 +334,11 @@ fn parse_reply(ws: &[&str]) -> Option<Reply> {
     Some(Reply {
         status: ws[0].parse().ok()?,
         ct: untok_opt_bytes(ws[1])?,
-        framing: ws[2].to_string(),
+        framing: ws[2].split('+').next().unwrap_or("cl").to_string(),
         body: untok_bytes(ws[3])?,
         fault: ws[4].to_string(),
+        flags: ws[2].split('+').skip(1).map(|s| s.to_string()).collect(),
+        nested: None,
     })
 }
 
@@ -333,13 +363,38 @@ fn run_net(ws: &[&str]) -> String {
     let listener = TcpListener::bind("127.0.0.1:0").unwrap();
     let port = listener.local_addr().unwrap().port();
     let (done_tx, done_rx) = mpsc::channel();
+    let mut inner_server = None;
     let server = if reply.fault == "refused" {
         drop(listener);
         None
     } else {
-        let r = reply.clone();
+        let mut r = reply.clone();
+        if r.flags.iter().any(|f| f == "nested") {
+            let l2 = TcpListener::bind("127.0.0.1:0").unwrap();
+            let p2 = l2.local_addr().unwrap().port();
+            let (tx2, rx2) = mpsc::channel::<()>();
+            let r2 = Reply { status: 200, ct: Some(b"application/json".to_vec()), framing: "cl".into(), body: b"{\"inner\":true}".to_vec(), fault: "none".into(), flags: vec![], nested: None };
+            inner_server = Some((std::thread::spawn(move || serve(l2, r2, p2, rx2)), tx2));
+            r.nested = Some((adapter.clone(), p2));
+        }
         Some(std::thread::spawn(move || serve(listener, r, port, done_rx)))
     };
+    if reply.flags.iter().any(|f| f == "put") {
+        // an earlier call, on a thread of its own, with a method the adapter may refuse (by returning an
+        // error or by panicking): whatever it does there, the next ordinary call is unaffected
+        let l3 = TcpListener::bind("127.0.0.1:0").unwrap();
+        let p3 = l3.local_addr().unwrap().port();
+        let (tx3, rx3) = mpsc::channel::<()>();
+        let r3 = Reply { status: 200, ct: None, framing: "cl".into(), body: b"ok".to_vec(), fault: "none".into(), flags: vec![], nested: None };
+        let h3 = std::thread::spawn(move || serve(l3, r3, p3, rx3));
+        let ad = adapter.clone();
+        let _ = with_watchdog(move || {
+            let pr = http::Request::builder().method(http::Method::PUT).uri(format!("http://127.0.0.1:{}/put", p3)).body(b"x".to_vec()).unwrap();
+            call_adapter(&ad, pr)
+        });
+        let _ = tx3.send(());
+        let _ = h3.join();
+    }
     let mut b = http::Request::builder()
         .method(http::Method::POST)
         .uri(format!("http://127.0.0.1:{}{}", port, path))
@@ -361,7 +416,7 @@ fn run_net(ws: &[&str]) -> String {
             let l = TcpListener::bind("127.0.0.1:0").unwrap();
             let p = l.local_addr().unwrap().port();
             let (tx, rx) = mpsc::channel::<()>();
-            let r = Reply { status: 200, ct: Some(b"application/json".to_vec()), framing: "cl".into(), body: body.to_vec(), fault: fault.into() };
+            let r = Reply { status: 200, ct: Some(b"application/json".to_vec()), framing: "cl".into(), body: body.to_vec(), fault: fault.into(), flags: vec![], nested: None };
             pre_servers.push((std::thread::spawn(move || serve(l, r, p, rx)), tx));
             pre_ports.push(p);
         }
@@ -398,6 +453,10 @@ fn run_net(ws: &[&str]) -> String {
         Some(h) => h.join().unwrap_or_default(),
         None => vec![],
     };
+    if let Some((h, tx)) = inner_server {
+        let _ = tx.send(());
+        let _ = h.join();
+    }
     format!("{} | {}", render_seen(&seen), cli)
 }
 
@@ -415,6 +474,8 @@ fn run_flow(ws: &[&str]) -> String {
         framing: "cl".into(),
         body: match untok_bytes(ws[3]) { Some(b) => b, None => return BAD.into() },
         fault: "none".into(),
+        flags: vec![],
+        nested: None,
     };
     let listener = TcpListener::bind("127.0.0.1:0").unwrap();
     let port = listener.local_addr().unwrap().port();
@@ -492,7 +553,7 @@ fn run_big(ws: &[&str]) -> String {
     // the request body is form-shaped: a=<hex-ish letters>
     let mut req_body = b"a=".to_vec();
     req_body.extend(pseudo_bytes(qn, 0xabcdef ^ qn as u64).into_iter().map(|b| b'a' + (b % 26)));
-    let reply = Reply { status, ct: Some(b"application/json".to_vec()), framing: ws[3].to_string(), body: reply_body.clone(), fault: "none".into() };
+    let reply = Reply { status, ct: Some(b"application/json".to_vec()), framing: ws[3].to_string(), body: reply_body.clone(), fault: "none".into(), flags: vec![], nested: None };
     let listener = TcpListener::bind("127.0.0.1:0").unwrap();
     let port = listener.local_addr().unwrap().port();
     let (done_tx, done_rx) = mpsc::channel();
